@@ -13,6 +13,26 @@ from .oracles import guarded, sample
 from .workload import Gen
 
 
+def token_codec_sweep(ctx):
+    """Tokens round-trip through their text encoding for every (prefix index, path): sampled
+    directly, including prefix indexes of several digits and long paths."""
+    from traph.helpers import build_pagination_token, parse_pagination_token
+
+    r = ctx.obs_rng
+    for _ in range(12):
+        i = r.choice([0, 1, 9, 10, 11, 35, 36, 61, 62, 63, 64, 99, 100, 255, 4095, r.randrange(0, 100000)])
+        depth = r.choice([0, 1, 2, 3, 5, 8, 13, 30, 60])
+        path = 0
+        for _d in range(depth):
+            path = path * 4 + r.choice([1, 2, 3])
+        tok = build_pagination_token(i, path)
+        try:
+            back = parse_pagination_token(tok)
+        except Exception as e:
+            back = ("raised", type(e).__name__)
+        ctx.check("C09.token_roundtrip", back == (i, path), lambda: "token %r built from (prefix index %d, path %d) parses back to %r" % (tok, i, path, back))
+
+
 def token_roundtrip(ctx, token):
     from traph.helpers import build_pagination_token, parse_pagination_token
 
@@ -71,6 +91,7 @@ def page_chain(ctx, w, prefs, k, crawled_only, clause_prefix="C09", between=None
 
 def sweep_C09(ctx):
     m, t = ctx.model, ctx.t
+    token_codec_sweep(ctx)
     for w in m.weids():
         prefs = m.we_prefixes(w)
         ctx.obs_rng.shuffle(prefs)
